@@ -36,6 +36,7 @@ from __future__ import annotations
 import copy
 import datetime as dt
 import io
+import json
 import os
 import re
 import shutil
@@ -51,7 +52,7 @@ DRIVER = "kskm_driver_pkgf"
 
 ASSUMPTIONS = [
     "yaml.safe_load is trusted: the model starts from the value tree PyYAML produced",
-    "pydantic's validation semantics are modelled (coercion table established by experiment), not verified; strings the model does not cover are answered `unsupported` and judged by the oracle alone",
+    "pydantic's validation semantics are modelled (coercion table established by experiment), not verified; strings the model does not cover are answered `unsupported` and judged by the oracle alone. Still not covered after wave B3: non-ASCII characters against the `\\w` patterns (Unicode word class), durations with a `.`/`,` fraction or in speedate's non-ISO spellings (`3d`, `1 day, 10:20:30`, `95:13`), numbers with a fraction as validities / durations (the tree encoding drops the fraction), validity text that is a number with a fraction or beyond 64 bits (wraps), year 1 / 9999 with a non-zero zone, integer text over [0-9_+-] with a sign after a leading zero (`0-6` loads as -6), integer text longer than 4300 characters",
     "file existence (pydantic FilePath) is passed to the model as the list of existing paths",
     "exit statuses are observed on real subprocesses; what happens after a configuration is loaded is other properties' subject (no KSR is supplied, so status 0 is unreachable here)",
     "flag-pairs: RSA PKCS#1 v1.5 as implemented by `cryptography` decides proof of possession for implementation and oracle alike; the model is fed the "
@@ -961,10 +962,19 @@ def judge_tree(res: Result, case: dict[str, Any], impl: Any, model: Any, oracle:
     if lib.is_unsupported(model):
         res.unsupported += 1
         res.bump("unsupported:" + case["stream"])
+        dump_unsupported(case["stream"], {"tag": case.get("tag"), "impl": summarise(impl)})
     elif not same_load(impl, model):
         res.disagreement("KSKMConfig.from_dict: model != implementation", mk(), summarise(impl), summarise(model), difference=first_diff(impl, model))
     elif "error" in impl and impl["error"] != model.get("error"):
         res.soft_error_kind_mismatch += 1
+
+
+def dump_unsupported(stream: str, rec: Any) -> None:
+    """debugging aid: with C16_DUMP_UNSUPPORTED=<file> every case the model declines is appended there"""
+    path = os.environ.get("C16_DUMP_UNSUPPORTED")
+    if path:
+        with open(path, "a", encoding="utf-8") as fh:
+            fh.write(json.dumps({"stream": stream, **rec}, default=repr, ensure_ascii=False)[:2000] + "\n")
 
 
 def canon_tree(tree: Any) -> Any:
@@ -1066,6 +1076,8 @@ def replay(obj: dict[str, Any]) -> Any:
             return replay_pairs(case)
         if case.get("stream") == "chain-pairs":
             return replay_chain_pairs(case)
+        if case.get("stream") == "coercion":
+            return replay_coercion(case, sdir)
         if "op" in case:
             return {"case": case, "model": run_driver([case], exe=DRIVER)[0]}
         tree = uncanon(case.get("tree"), sdir)
@@ -1076,6 +1088,29 @@ def replay(obj: dict[str, Any]) -> Any:
         return {"case": {"stream": case.get("stream"), "tag": case.get("tag")}, "implementation": summarise(impl) if "ok" in impl else impl,
                 "model": summarise(model), "oracle": list(Oracle(files).verdict(tree))[:1] + [str(Oracle(files).verdict(tree)[1])[:400]],
                 "model_vs_implementation": first_diff(impl, model) if "ok" in impl and isinstance(model, dict) and "ok" in model else (coarse(impl), coarse(model))}
+
+
+def replay_coercion(case: dict[str, Any], sdir: str) -> Any:
+    import pydantic
+
+    from kskm.common import config_misc as cm
+    from kskm.common import data as cdata
+
+    line = case["line"]
+    model = run_driver([line], exe=DRIVER)[0]
+    if line["op"] == "config_from_dict":
+        impl = load_impl(uncanon(line["config"], sdir))
+        return {"case": case, "implementation": summarise(impl), "model": summarise(model)}
+    cls = {"RequestPolicy": cm.RequestPolicy, "KSKKey": cm.KSKKey, "KSKMFilenames": cm.KSKMFilenames, "SignaturePolicy": cdata.SignaturePolicy}[line["model"]]
+    data = dict(REQUIRED_FILLERS.get(line["model"], {}))
+    data[line["field"]] = uncanon(line["value"], sdir)
+    try:
+        impl = {"ok": canon(getattr(cls.model_validate(data), line["field"]))}
+    except pydantic.ValidationError:
+        impl = {"error": "validation"}
+    except Exception as exc:  # noqa: BLE001
+        impl = {"error": lib.error_kind(exc)}
+    return {"case": case, "implementation": impl, "model": model}
 
 
 def replay_main(case: dict[str, Any], scratch: Path) -> Any:
@@ -1179,6 +1214,7 @@ def direct_duration_stream(res: Result, tier: str, r: Any, scratch: Path, driver
         if lib.is_unsupported(m):
             res.unsupported += 1
             res.bump("unsupported:duration-direct")
+            dump_unsupported("duration-direct", {"line": line, "impl": impl})
         elif ("ok" in impl) != ("ok" in m) or ("ok" in impl and impl != m):
             res.disagreement(f"{line['op']}: model != implementation", line, impl, m)
         elif "error" in impl and (impl["error"] == "validation") != (m.get("error") == "validation"):
@@ -1267,11 +1303,251 @@ def scalar_stream(res: Result, tier: str, r: Any, scratch: Path, driver_ok: bool
         if lib.is_unsupported(m):
             res.unsupported += 1
             res.bump("unsupported:scalar")
+            dump_unsupported("scalar", {"line": line, "impl": impl})
         elif coarse(impl) != coarse(m) or ("ok" in impl and impl != m):
             res.disagreement("field validation: model != implementation", tokenise(line, str(scratch)), impl, m)
 
 
 OTHER_STREAMS.append(scalar_stream)
+
+
+# ------------------------------------------------------------------------------------------------
+# stream: the coercion classes the model decides exactly (wave B3): integers out of text and floats, validity
+# timestamps out of numbers and ISO text, durations out of whole seconds and text with foreign characters, path
+# normalisation, a configuration file whose top level is not a mapping
+# ------------------------------------------------------------------------------------------------
+
+RUST_WS = ["", "", " ", "\t", "\n", "\r", "\x0b", "\x0c", "\x85", "\xa0", "\u1680", "\u2000", "\u200a", "\u2028", "\u2029", "\u202f", "\u205f", "\u3000"]
+NOT_RUST_WS = ["\x1c", "\x1f", "\u200b", "\ufeff", "\x00"]
+KNOWN_SECTIONS = {"hsm", "keys", "ksk_keys", "ksk_policy", "request_policy", "response_policy", "schemas", "filenames"}
+
+
+def gen_int_text(r: Any) -> str:
+    digits = lambda: "".join(r.choice("0123456789") for _ in range(r.choice([1, 1, 2, 3, 5, 19, 20, 25])))  # noqa: E731
+    body = "_".join(digits() for _ in range(r.choice([1, 1, 1, 2, 3])))
+    if r.random() < 0.3:
+        body = r.choice(["0", "00", "000", "0_", "0__", "0_0_", "0___0__", "0-", "0_-", "0+"]) + body
+    s = r.choice(["", "", "+", "-"]) + body + r.choice(["", "", "", ".0", ".000", ".", ".5", ".0_0"])
+    if r.random() < 0.35:
+        i = r.randrange(len(s) + 1)
+        s = s[:i] + r.choice(["_", "__", " ", "+", "-", ".", ",", "e3", "x", "١", "２", "é", "\x1c"]) + s[i:]
+    return r.choice(RUST_WS) + s + r.choice(RUST_WS + NOT_RUST_WS[:2])
+
+
+def denoted_number(text: str) -> float | int | None:
+    """what Python itself reads the text as (the independent reading of "the stated value")"""
+    import decimal
+
+    try:
+        return int(text)
+    except ValueError:
+        pass
+    try:
+        d = decimal.Decimal(text.strip())
+    except decimal.InvalidOperation:
+        return None
+    if not d.is_finite():
+        return None
+    return int(d) if d == d.to_integral_value() else float(d)
+
+
+def gen_iso_datetime(r: Any) -> str:
+    """mostly valid `YYYY-MM-DD[T t_ ]HH:MM[:SS[(.|,)f…]][zone]`, each part now and then at / beyond its edge"""
+    rare = lambda ok, bad: r.choice(bad) if r.random() < 0.06 else r.choice(ok)  # noqa: E731
+    y = rare([1, 2, 1600, 1969, 1970, 2010, 2012, 2100, 9998, 9999, r.randint(1, 9999), r.randint(1900, 2100)], [0])
+    mo, d = rare([1, 2, 12, r.randint(1, 12)], [0, 13]), rare([1, 28, r.randint(1, 28), r.randint(1, 28), 29, 30], [0, 31, 32])
+    s = f"{y:04d}-{mo:02d}-{d:02d}"
+    if r.random() < 0.12:
+        return s + rare([""], [" ", "T", "Z"])
+    s += rare(["T", "T", "T", "t", " ", "_"], ["X", "\t", "  "])
+    s += f"{rare([0, 12, 23, r.randint(0, 23)], [24]):02d}:{rare([0, 59, r.randint(0, 59)], [60]):02d}"
+    if r.random() < 0.8:
+        s += f":{rare([0, 59, r.randint(0, 59)], [60]):02d}"
+        if r.random() < 0.4:
+            s += r.choice([".", ".", ","]) + "".join(r.choice("0123456789") for _ in range(rare([1, 3, 6, 7, 9, 12], [0])))
+    s += rare(["", "", "Z", "z", "+00:00", "-00:00", "+0000", "-0230", "+02:00", "+23:59", "-23:59", "\u221202:00", "\u22120200"], ["+24:00", "+02:60", "+02", " Z", "Zx", "+1:00"])
+    if r.random() < 0.06:
+        i = r.randrange(len(s) + 1)
+        s = s[:i] + r.choice([" ", "0", "-", ":", "x"]) + s[i:]
+    return s
+
+
+def python_instant(text: str) -> int | None:
+    """Python's own ISO 8601 reading (datetime.fromisoformat), no designator = UTC; None if it does not read it"""
+    try:
+        v = dt.datetime.fromisoformat(text)
+    except ValueError:
+        return None
+    try:
+        return lib.dt_us(v if v.tzinfo else v.replace(tzinfo=dt.timezone.utc))
+    except OverflowError:
+        return None
+
+
+def gen_foreign_duration(r: Any) -> str:
+    base = r.choice(["%d d", "%dd", "%dD", "%d days, %d:%02d:%02d", "%d:%02d", "%d:%02d:%02d", "%d day, %d:%02d", "%dd %d:%02d:%02d.%d", ":%02d:%02d",
+                     "P%dD", "P%dW%dD", "PT%dH%dM", "P%dDT%dS", "%d", "%d.%d", "%d %d"])  # fmt: skip
+    s = base % tuple(r.randint(0, 60) for _ in range(base.count("%")))
+    if r.random() < 0.4:
+        s = r.choice("+-") + s
+    for _ in range(r.choice([0, 1, 1, 2])):
+        i = r.randrange(len(s) + 1)
+        s = s[:i] + r.choice(list("TZxPe+-\n\t_YMWHSAé٣ dw") + ["\u2212"]) + s[i:]
+    return s
+
+
+def coercion_stream(res: Result, tier: str, r: Any, scratch: Path, driver_ok: bool) -> None:
+    import os.path
+
+    import pydantic
+
+    from kskm.common import config_misc as cm
+    from kskm.common import data as cdata
+
+    classes = {"RequestPolicy": cm.RequestPolicy, "KSKKey": cm.KSKKey, "KSKMFilenames": cm.KSKMFilenames, "SignaturePolicy": cdata.SignaturePolicy}
+    n = 1 if tier == "quick" else 12
+    D = 86400
+    cases: list[tuple[str, str, str, Any]] = []  # (kind, model, field, value)
+    # integers out of text / floats
+    for _ in range(260 * n):
+        cases.append(("int-text", *r.choice([("RequestPolicy", "dns_ttl"), ("KSKKey", "rsa_exponent"), ("KSKKey", "key_tag"), ("RequestPolicy", "num_bundles")]), gen_int_text(r)))
+    for f in (2.0**63, -(2.0**63), 9223372036854774784.0, -9223372036854774784.0, 2.0**53, 2.0**53 + 2, 1e19, -1e19, 1e20, 4.0, -4.0, 0.5, float("inf"), float("nan")):
+        cases.append(("int-float", "KSKKey", "rsa_exponent", f))
+        cases.append(("int-float", "RequestPolicy", "dns_ttl", f))
+    # validity out of numbers: the seconds / milliseconds watershed and the year 1 / 9999 edges
+    nums: list[int] = []
+    for b in (0, 2 * 10**10, -2 * 10**10, 253402300799, 253402300799999, 253402300800000, -62135596800, -62135596800000, -62167219200000, 2**53, -(2**53), 2**63, -(2**63), 2**64, -(2**64)):
+        nums += [b - 2, b - 1, b, b + 1, b + 2]
+    nums += [r.randint(-(10 ** r.randint(1, 21)), 10 ** r.randint(1, 21)) for _ in range(60 * n)]
+    for i in nums:
+        fld = r.choice(["valid_from", "valid_until"])
+        cases.append(("ts-int", "KSKKey", fld, i))
+        cases.append(("ts-text", "KSKKey", fld, r.choice(["", "", "+", ""]) + str(i) if i >= 0 else str(i)))
+        if float(i) == i and abs(i) < 2**53:
+            cases.append(("ts-float", "KSKKey", fld, float(i)))
+    for _ in range(300 * n):
+        cases.append(("ts-iso", "KSKKey", r.choice(["valid_from", "valid_until"]), gen_iso_datetime(r)))
+    # durations out of whole seconds: the u32 day wrap, the 10^9-day edge, the i64 edge
+    secs: list[int] = []
+    for b in (0, 10**9 * D, -(10**9) * D, -(10**9 - 1) * D, 2**32 * D, -(2**32) * D, 2 * 2**32 * D, 2**32 * D + 10**9 * D, 2**63, -(2**63), 2**64, 2**53):
+        secs += [b - D, b - 1, b, b + 1, b + D]
+    secs += [r.randint(-(10 ** r.randint(1, 20)), 10 ** r.randint(1, 20)) for _ in range(40 * n)]
+    for i in secs:
+        m, fld = r.choice([("RequestPolicy", "min_bundle_interval"), ("SignaturePolicy", "publish_safety")])
+        cases.append(("td-int", m, fld, i))
+        if float(i) == i:
+            cases.append(("td-float", m, fld, float(i)))
+    for _ in range(300 * n):
+        cases.append(("td-text", "RequestPolicy", r.choice(["max_bundle_interval", "min_cycle_inception_length"]), gen_foreign_duration(r)))
+    # (SignaturePolicy is a STRICT model: text is never coerced there — `_transform_config` converts it first)
+    for v in ("P51D", "PT3H0M", 86400, True, dt.timedelta(days=3)):
+        cases.append(("td-strict", "SignaturePolicy", "retire_safety", v))
+    # paths
+    for _ in range(80 * n):
+        segs = [r.choice(["", ".", "..", "a", "b.xml", "x y", "é", "a\x00b"]) for _ in range(r.randint(0, 4))]
+        cases.append(("path", "KSKMFilenames", r.choice(["output_skr", "output_trustanchor"]), r.choice(["", "", "/", "//", "///", "./"]) + "/".join(segs)))
+
+    lines: list[dict[str, Any]] = []
+    impls: list[Any] = []
+    kept: list[tuple[str, str, str, Any]] = []
+    for kind, mname, fname, v in cases:
+        data = dict(REQUIRED_FILLERS.get(mname, {}))
+        data[fname] = v
+        try:
+            obj = classes[mname].model_validate(data)
+            impl: Any = {"ok": canon(getattr(obj, fname))}
+        except pydantic.ValidationError:
+            impl = {"error": "validation"}
+        except Exception as exc:  # noqa: BLE001
+            impl = {"error": lib.error_kind(exc)}
+        impls.append(impl)
+        kept.append((kind, mname, fname, v))
+        lines.append({"op": "config_validate", "model": mname, "field": fname, "value": canon(v), "files": []})
+    # a configuration whose top level is not a mapping: `dict(config)` decides
+    tops: list[Any] = ["x", "ab", "just a string", "", [], ["ab"], ["abc"], [1], [None], [True], [1.5], [["hsm", {}]], [["hsm", {}], 1], [["hsm", {}], "abc"], [[["a"], 1]],
+                       [[{"a": 1}, 1]], [{"a": 1, "b": 2}], [{"hsm": 1, "filenames": 2}], [["a", 1], ["a", 2]], [[1, 2]], [""], [[]], [{}], [["filenames", {}]], [["filenames", {}], ["schemas", {}]],
+                       [["filenames", {}], ["filenames", {}]], [["filenames", {}, 1]], [dt.date(2020, 1, 1)], [["request_policy", {"num_bundles": 0}]], None, 0, True, 1.5]  # fmt: skip
+    for v in tops:
+        impls.append(load_impl(v))
+        kept.append(("top-level", "KSKMConfig", "", v))
+        lines.append({"op": "config_from_dict", "config": canon(v), "files": []})
+    models = run_driver(lines, exe=DRIVER) if driver_ok else [None] * len(lines)
+    for (kind, mname, fname, v), line, impl, m in zip(kept, lines, impls, models):
+        rec = {"stream": "coercion", "kind": kind, "line": line}
+        res.count({"stream": "coercion", "kind": kind, "m": mname, "f": fname, "v": line.get("value", line.get("config"))})
+        res.bump("stream:coercion")
+        res.bump(f"coercion:{kind}:{coarse(impl)}")
+        # ---- the property on the implementation's own answer (independent readings of "the stated value")
+        if "ok" in impl:
+            got = impl["ok"]
+            if kind == "int-text":
+                want = denoted_number(v)
+                core = v.strip().lstrip("+-")
+                if (want is None or got != want) and core[:1] == "0" and re.search(r"[+-]", core):
+                    # pydantic-core skips a leading run of zeros / underscores and then reads a SIGNED number: "0-6" is
+                    # loaded as -6, "0_-369" as -369.  Recorded (reported to the lead as a candidate finding), not judged:
+                    # every constrained option (dns_ttl >= 0, the positivity checks) still refuses the negative result.
+                    res.bump("quirk:int-text:sign after a leading zero is read (0-6 loads as -6)")
+                elif want is None or got != want:
+                    res.violation("text that does not state this integer is loaded as an integer option", rec, key=f"int-text:{fname}:{v!r}", impl=impl, python_reads=want)
+            if kind in ("int-text", "int-float") and fname == "dns_ttl" and isinstance(got, int) and got < 0:
+                res.violation("negative TTL is accepted", rec, key=f"neg-ttl:{v!r}", impl=impl)
+            if kind == "int-float" and (v != v or got != v):
+                res.violation("float that is not this whole number is loaded as an integer option", rec, key=f"int-float:{v!r}", impl=impl)
+            if kind in ("ts-int", "ts-text", "ts-float"):
+                i = int(v)
+                if not (isinstance(got, dict) and got.get("ts") in ([i * 10**6, 0], [i * 10**3, 0])) and abs(i) >= 2**63 and kind == "ts-text":
+                    # speedate reads the digits with wrapping 64-bit arithmetic: "18446744073709551616" loads as the epoch;
+                    # a bare number is not a documented spelling of a validity ("ISO8601 timestamp"): recorded, not judged
+                    res.bump("quirk:ts-text:number beyond 64 bits wraps")
+                elif not (isinstance(got, dict) and got.get("ts") in ([i * 10**6, 0], [i * 10**3, 0])):
+                    res.violation("numeric validity is not loaded as that unix time (s or ms), in UTC", rec, key=f"ts-num:{v!r}", impl=impl)
+            if kind == "ts-iso":
+                want_us = python_instant(v)
+                if want_us is None:
+                    res.bump("quirk:ts-iso:accepts-what-fromisoformat-refuses")
+                elif not (isinstance(got, dict) and got.get("ts", [None])[0] == want_us and got["ts"][1] is not None):
+                    res.violation("loaded value differs from the configured value", rec, key=f"ts-iso:{v!r}", impl=impl, python_reads=want_us)
+            if kind in ("td-int", "td-float"):
+                if got != {"td": int(v) * 10**6}:
+                    # pydantic's day count is a u32 that wraps; whole seconds are not a documented duration spelling
+                    res.bump("quirk:td-int:loaded-value-is-not-the-stated-seconds(u32 day wrap)")
+            if kind == "td-strict" and not isinstance(v, dt.timedelta):
+                res.violation("the strict signature-policy model coerces a value that is not a duration", rec, key=f"td-strict:{v!r}", impl=impl)
+            if kind == "td-text":
+                want_td = iso_wdhms(v)
+                if want_td is not None and got != {"td": want_td}:
+                    res.violation("ISO 8601 W/D/H/M/S duration is not loaded exactly", rec, key=f"td-text:{v!r}", impl=impl, expected=want_td)
+                if want_td is None:
+                    res.bump("quirk:td-text:accepts-beyond-WDHMS")
+            if kind == "path" and os.path.normpath(got) != os.path.normpath(v or "."):
+                res.violation("loaded value differs from the configured value", rec, key=f"path:{v!r}", impl=impl)
+            if kind == "top-level":
+                try:
+                    as_dict = dict(v)
+                except (TypeError, ValueError):
+                    as_dict = None
+                if as_dict is None or not set(as_dict) <= KNOWN_SECTIONS:
+                    res.violation("a configuration that is not a mapping of known sections is loaded", rec, key=f"top:{v!r}", impl=summarise(impl))
+        elif kind == "td-text" and iso_wdhms(v) is not None:
+            res.violation("ISO 8601 W/D/H/M/S duration is not loaded exactly", rec, key=f"td-text:{v!r}", impl=impl, expected=iso_wdhms(v))
+        if m is None:
+            continue
+        if lib.is_unsupported(m):
+            res.unsupported += 1
+            res.bump("unsupported:coercion")
+            res.bump(f"unsupported:coercion:{kind}")
+            dump_unsupported("coercion", {"kind": kind, "line": line, "impl": summarise(impl)})
+        elif kind == "top-level":
+            if not same_load(impl, m):
+                res.disagreement("KSKMConfig.from_dict (top level not a mapping): model != implementation", rec, summarise(impl), summarise(m))
+        elif coarse(impl) != coarse(m) or ("ok" in impl and impl != m):
+            res.disagreement("field validation: model != implementation", rec, impl, m)
+        elif "error" in impl and coarse(impl) == "other" and impl["error"] != m.get("error"):
+            res.disagreement("field validation: escaping exception differs", rec, impl, m)
+
+
+OTHER_STREAMS.append(coercion_stream)
 
 
 # ------------------------------------------------------------------------------------------------
@@ -1630,6 +1906,7 @@ def judge_main(res: Result, c: dict[str, Any], status: int, model: Any) -> None:
     if lib.is_unsupported(model):
         res.unsupported += 1
         res.bump("unsupported:main")
+        dump_unsupported("main", {"name": c["name"], "yaml": c["yaml"], "outcome": outcome, "status": status})
         return
     if model.get("status") != status or (model.get("outcome") != outcome):
         res.disagreement("main(): model exit status != observed", rec, {"outcome": outcome, "status": status}, model)
